@@ -21,7 +21,7 @@ EXHAUSTIVE_SUBDOMAINS = ["atmos on the 10 m altitude grid over [-500, 20000] m"]
 ASSUMPTIONS = ["'tabulated ISA' = analytic hydrostatic ISA with g0, R, lapse rate -6.5 K/km, isothermal above 11 km",
                "round-trip tolerance 1e-8 relative (double precision through two pow() calls)"]
 REQUIRED = ["atmos_grid", "tropopause", "roundtrip", "monotone", "sea_level", "ordering", "distance_uniform",
-            "distance_antipodal", "distance_identical", "bearing", "array_equals_scalar", "types"]
+            "distance_antipodal", "distance_identical", "distance_cardinal", "bearing", "array_equals_scalar", "types"]
 
 
 def rel(a, b):
@@ -293,7 +293,7 @@ def cases(ctx):
     def rp():
         return [math.degrees(math.asin(rng.uniform(-1, 1))), rng.uniform(-180, 180)]
     for k in range(ctx.share(1200 if quick else 24000)):
-        kind = ("uniform", "antipodal", "identical", "polar", "antimeridian", "near")[k % 6]
+        kind = ("uniform", "antipodal", "identical", "polar", "antimeridian", "near", "cardinal")[k % 7]
         pairs = []
         for _ in range(40):
             a = rp()
@@ -306,6 +306,20 @@ def cases(ctx):
             elif kind == "polar":
                 a = [rng.choice((90.0, -90.0, 89.999999, -89.999999)), rng.uniform(-180, 180)]
                 b = rp() if rng.random() < 0.5 else [-a[0], rng.uniform(-180, 180)]
+            elif kind == "cardinal":
+                # legs along a meridian or a parallel, up to a few ulps: the bearing sits on the 0/360 (or 90/180/270) seam
+                tiny = rng.choice((0.0, 1e-14, -1e-14, 1e-13, -1e-13, 1e-12, -1e-12, 1e-9, -1e-9))
+                c = rng.randrange(4)
+                if c == 0:
+                    b = [rng.choice((90.0, -90.0)), rng.uniform(-180, 180)]            # destination is a pole
+                elif c == 1:
+                    b = [math.degrees(math.asin(rng.uniform(-1, 1))), a[1] + tiny]       # same meridian
+                elif c == 2:
+                    b = [a[0] + tiny, rng.uniform(-180, 180)]                            # same parallel
+                    b[0] = max(-90.0, min(90.0, b[0]))
+                else:
+                    a = [round(a[0]), float(round(a[1]))]
+                    b = [float(rng.randint(-90, 90)), a[1] + tiny]                       # integral coordinates
             elif kind == "antimeridian":
                 a = [a[0], 180.0 - rng.uniform(0, 0.5)]
                 b = [max(-90.0, min(90.0, a[0] + rng.uniform(-0.5, 0.5))), -180.0 + rng.uniform(0, 0.5)]
